@@ -93,7 +93,8 @@ def scen_of(mech):
 OFFERS = ["none", "held", "held-noems", "held-noetm", "ticket-flip-first",
           "ticket-flip-mid", "ticket-flip-last", "unknown-id", "foreign",
           "held-refreshed-clock", "held-other-hash", "held-same-hash",
-          "held-copy", "held-no-alpn", "held-other-alpn"]
+          "held-copy", "held-no-alpn", "held-other-alpn", "held-other-sni",
+          "held-no-sni"]
 # suite the client offers instead of the session's: (other PRF hash / other
 # suite, same hash) per original cipher name
 OTHER = {"aes128gcm": ("aes256gcm", "chacha20-poly1305"),
@@ -190,6 +191,12 @@ def apply_offer(st, offer):
         cset["_alpn"] = None
     elif offer == "held-other-alpn":
         cset["_alpn"] = [b"http/1.1"]
+    elif offer == "held-other-sni":
+        # the session belongs to another server name: it must not be
+        # resumed under this one
+        cset["_sni"] = "other.example"
+    elif offer == "held-no-sni":
+        cset["_sni"] = None
     elif offer == "held-refreshed-clock":
         # a client whose notion of the ticket's receipt time is wrong keeps
         # offering it after the lifetime
@@ -219,6 +226,10 @@ def eligible(st, meta, srv_index, offer_sess, offer="held"):
     if offer == "held-other-hash" or (offer == "held-same-hash" and
                                       mech["version"] < (3, 4)):
         return False, "session's suite (hash) not offered"
+    offered_sni = {"held-other-sni": "other.example",
+                   "held-no-sni": None}.get(offer, "host.example")
+    if offered_sni != meta["sni"]:
+        return False, "offered under another server name"
     ok_ticket = mech["tickets"] and meta["has_ticket"] and \
         age <= LIFETIME and meta["key_epoch"] in srv_live_epochs(srv) and \
         not offer.startswith("ticket-flip") and offer != "unknown-id"
@@ -248,6 +259,11 @@ def do_connect(st, offer, seed):
                 sc.ckw.pop("alpn", None)
             else:
                 sc.ckw["alpn"] = v
+        elif k == "_sni":
+            if v is None:
+                sc.ckw.pop("serverName", None)
+            else:
+                sc.ckw["serverName"] = v
         else:
             sc.cset[k] = v
     want_alpn = (sc.ckw.get("alpn") or [None])[0] if not \
